@@ -12,7 +12,9 @@ LEVEL = 'exploration'
 RULE = ('Hypothesis-generated SimNet programs: 1-4 interactions (stream responders, both channel directions, '
         'request-response responders; either side) with manual publishers queuing bursts of 1-5 elements of 0-6 '
         'fragments each, completion / error / requester cancel, sender drain blocked and unblocked by operations, '
-        'fragment sizes 64-1024 or none, byte-stream and message framing. Oracle: per stream the send log has '
+        'fragment sizes 64-1024 or none, byte-stream and message framing; in a quarter of the programs the first requests, '
+        'REQUEST_N and cancels are queued while connect() is still waiting for its transport (SETUP is then inserted in '
+        'front of them). Oracle: per stream the send log has '
         'contiguous fragment trains and reassembles (independent reassembler) to exactly the frames the application '
         'handed over, in hand-over order, and the peer application receives the same sequence. Non-trivial = at '
         'some hand-over the send queue already held an unfinished frame of the same stream and one of the two had '
@@ -52,10 +54,27 @@ def programs(draw):
                 spec['rsub'] = {'n0': draw(st.sampled_from([gen.MAXN, gen.MAXN, 2, 5])), 'refill': draw(st.sampled_from([0, 1]))}
         inter.append(spec)
     ops = []
-    for i in range(n):
-        ops.append(['start'])
-        if draw(st.booleans()):
-            ops.append(['tick', draw(st.integers(1, 4))])
+    connect_race = draw(st.integers(0, 3)) == 0
+    if connect_race:
+        # frames queued while connect() is still waiting for the transport provider: SETUP is inserted in front of them
+        cfg['connect_async'] = True
+        cfg['provider_delay'] = [draw(st.sampled_from([1, 2, 4]))]
+        k = draw(st.integers(1, n))
+        for i in range(k):
+            inter[i]['side'] = 'c'
+            ops.append(['start'])
+            if inter[i]['k'] in ('st', 'ch') and draw(st.booleans()):
+                ops.append(['req', i, 'resp', draw(st.sampled_from([1, 2, 5]))])
+            if inter[i]['k'] == 'st' and draw(st.integers(0, 3)) == 0:
+                ops.append(['cancel', i, 'resp'])
+        ops += [['tick', 1], ['await_connect'], ['tick', 2]]
+        for i in range(k, n):
+            ops.append(['start'])
+    else:
+        for i in range(n):
+            ops.append(['start'])
+            if draw(st.booleans()):
+                ops.append(['tick', draw(st.integers(1, 4))])
     ops.append(['tick', 4])
     op = st.one_of(
         st.tuples(st.just('emit'), st.integers(0, 3), st.sampled_from(['resp', 'resp', 'req']), st.integers(1, 5)),
@@ -119,6 +138,7 @@ def prop(program):
                        'streams=%d' % len(program['inter']),
                        'max_fragments=%s' % (nfr if nfr < 4 else '4+'),
                        'blocked_drain=%s' % any(o[0] == 'block' for o in program['ops']),
+                       'queued_before_connect=%s' % bool(program['cfg'].get('connect_async')),
                        'quiescent=%s' % tr.quiet]
     return vs
 
